@@ -130,7 +130,10 @@ def build_agg(qr, case, order, unit, build_ctx, with_dip=True):
         if with_dip:
             for k, i in enumerate(order):
                 mols[k].set_dipole(0, 1, [float(x) for x in case["dip"][i]])
-        agg = qr.Aggregate(molecules=mols)
+        matrix_first = (case["coupling_api"] == "matrix" and N > 1 and case["seed"] % 3 == 0)
+        # the order of the specification calls is the program's business: molecules handed to the constructor, or an empty aggregate
+        # that is given its coupling matrix first and its molecules afterwards
+        agg = qr.Aggregate(name="agg") if matrix_first else qr.Aggregate(molecules=mols)
         if case["coupling_api"] == "matrix" and N > 1:
             Jm = numpy.zeros((N, N))
             for a in range(N):
@@ -138,6 +141,9 @@ def build_agg(qr, case, order, unit, build_ctx, with_dip=True):
                     if a != b:
                         Jm[a, b] = U.e_from_int(U.e_to_int(Jcm[order[a], order[b]], "1/cm"), unit)
             agg.set_resonance_coupling_matrix(Jm)
+            if matrix_first:
+                for m_ in mols:
+                    agg.add_Molecule(m_)
         else:
             for a in range(N):
                 for b in range(a + 1, N):
